@@ -107,6 +107,47 @@ def search(ctx):
                 bad += 1
                 ctx.fail(f"h2_flow:additive:{'gauss' if gaussian else 'euclid'}", f"{name}: h2_flow({t1}) then h2_flow({t2}) differs from h2_flow({t1 + t2}) by "
                          f"{max(np.abs(a2.pos - b.pos).max(), np.abs(a2.mom - b.mom).max()):.2e}", {"system": name, "t1": t1, "t2": t2})
+    # the metric is a public attribute that the metric adapters re-assign between stages: flows and reported flow derivatives follow the CURRENT metric
+    import mici.matrices as mm
+    import mici.systems as S
+    for mk_sys, label in ((lambda met: S.EuclideanMetricSystem(lambda x: 0.5 * x @ x, grad_neg_log_dens=lambda x: x, metric=met), "euclid"),
+                          (lambda met: S.GaussianEuclideanMetricSystem(lambda x: 0.1 * np.sum(x ** 4), grad_neg_log_dens=lambda x: 0.4 * x ** 3, metric=met), "gauss"),
+                          (lambda met: S.DenseConstrainedEuclideanMetricSystem(lambda x: 0.5 * x @ x, lambda x: np.array([x @ x - 1.0]), metric=met, grad_neg_log_dens=lambda x: x,
+                                                                              jacob_constr=lambda x: 2 * x[None]), "constr"),
+                          (lambda met: S.GaussianDenseConstrainedEuclideanMetricSystem(lambda x: 0.1 * np.sum(x ** 4), lambda x: np.array([x @ x - 1.0]), metric=met,
+                                                                                      grad_neg_log_dens=lambda x: 0.4 * x ** 3, jacob_constr=lambda x: 2 * x[None],
+                                                                                      mhp_constr=lambda x: (lambda m: 2 * m[0])), "gauss_constr")):
+        M1, M2 = matzoo.spd(rng, zoo.D), matzoo.spd(rng, zoo.D) * 2.5
+        sysm = mk_sys(mm.DensePositiveDefiniteMatrix(M1))
+        q, p = rng.standard_normal(zoo.D), rng.standard_normal(zoo.D)
+        for stage, Mcur in (("initial metric", M1), ("after re-assigning system.metric", M2), ("after assigning the first metric back", M1)):
+            if stage != "initial metric":
+                sysm.metric = mm.DensePositiveDefiniteMatrix(Mcur)
+            for t in (0.7, -1.3, 0.7):        # the last interval before a metric change is the first after it: nothing may be remembered across the change
+                def fl(pp, sysm=sysm, t=t):
+                    st = ChainState(pos=q.copy(), mom=pp.copy(), dir=1)
+                    sysm.h2_flow(st, t)
+                    return st
+                ctx.case(("reassign", label, stage, t))
+                ctx.count("search:metric_reassigned")
+                if hasattr(sysm, "dh2_flow_dmom"):
+                    dq_dp, dp_dp = sysm.dh2_flow_dmom(ChainState(pos=q.copy(), mom=p.copy(), dir=1), t)
+                    hh = 1e-6
+                    Jq = np.stack([(fl(p + hh * e).pos - fl(p - hh * e).pos) / (2 * hh) for e in np.eye(zoo.D)], axis=1)
+                    Jp = np.stack([(fl(p + hh * e).mom - fl(p - hh * e).mom) / (2 * hh) for e in np.eye(zoo.D)], axis=1)
+                    err = max(np.abs(np.asarray(dq_dp @ np.eye(zoo.D)) - Jq).max(), np.abs(np.asarray(dp_dp @ np.eye(zoo.D)) - Jp).max())
+                    if not err <= 1e-6 * max(1, abs(t)):
+                        bad += 1
+                        ctx.fail(f"dh2_flow_dmom:metric_reassigned:{label}", f"{type(sysm).__name__} ({stage}): dh2_flow_dmom(t={t}) differs from the finite-difference Jacobian of "
+                                 f"h2_flow by {err:.2e}", {"system": label, "stage": stage, "t": t})
+                        break
+                # the flow itself follows the current metric: position velocity at t -> 0 is M^-1 p
+                st = fl(p, t=1e-6) if False else None
+                v = (fl(p).pos - q)
+                if label in ("euclid", "constr") and not np.allclose(v, t * np.linalg.solve(Mcur, p), rtol=1e-9, atol=1e-10):
+                    bad += 1
+                    ctx.fail(f"h2_flow:metric_reassigned:{label}", f"{type(sysm).__name__} ({stage}): h2_flow does not move the position by t M^-1 p for the current metric", {"system": label, "stage": stage})
+                    break
     # h1 flow on every system class: momentum shifted by -t grad h1 (finite differences of h1), position unchanged, additive, inverse, repeated calls
     for conv in ("bare", "tuple"):
         systems, _ = zoo.make_systems(conv)
@@ -132,7 +173,7 @@ def search(ctx):
                              f"p - t grad h1 by {np.abs(st.mom - (st0.mom - total * g)).max():.2e}", {"system": name, "conv": conv, "call": call, "pos": st0.pos.tolist()})
                     break
     ctx.oblige("search: h2_flow vs the exact solution (matrix exponential / drift), energy, inverse, additivity incl. long times, dh2_flow_dmom vs finite differences "
-               "for every tractable system x metric kind (implicit identity included); h1_flow = kick by -t grad h1 with repeated calls on every class", bad == 0, f"{bad} failures")
+               "for every tractable system x metric kind (implicit identity included), also after re-assigning system.metric; h1_flow = kick by -t grad h1 with repeated calls on every class", bad == 0, f"{bad} failures")
 
 
 def correspondence(ctx):
